@@ -5,7 +5,7 @@ cd /verif
 if ! git -C /repo diff --quiet; then echo "/repo has local changes; refusing"; exit 2; fi
 git -C /repo apply /verif/seeded/$id/patch.diff || { echo "patch does not apply"; exit 2; }
 for c in "$@"; do
-  out=$(timeout 1800 ./check $c --tier quick 2>&1); rc=$?
+  out=$(timeout 1800 ./check $c --tier quick $EXTRA 2>&1); rc=$?
   echo "== $id on $c: exit $rc"; echo "$out" | grep -E "^VIOLATION|^KNOWN|^$c " | cut -c1-300 | head -8
 done
 git -C /repo checkout -- .
